@@ -41,7 +41,7 @@ def nontrivial(tracefile):
                 cur, hit = [], False
             else:
                 cur.append(line)
-                if ('"ev":"read"' in line or '"ev":"next"' in line) and '"n":0' not in line:
+                if ('"ev":"read"' in line or '"ev":"next"' in line or '"ev":"cread"' in line) and '"n":0' not in line:
                     hit = True
     if cur and hit:
         seen.add(hash(tuple(cur)))
@@ -78,10 +78,15 @@ def run(tier, rep):
     vlib.vh(["recvbuf-random", vlib.seed(), 4000 if quick else 60000, 60, 40, beh])
     vlib.vh(["recvbuf-replay", beh, trace])
     _validate(rep, "random", trace)
+    # the same buffer behind the crypto stream's receive API (CryptoStreamIncoming::recv_frame + CryptoStreamReader::poll_read)
+    for name, behf in (("crypto/allpaths-n4", os.path.join(wd, "beh_n4.ndjson")), ("crypto/random", beh)):
+        ctrace = os.path.join(wd, "trace_%s.ndjson" % name.replace("/", "_"))
+        vlib.vh(["recvbuf-replay", behf, ctrace, "crypto"])
+        _validate(rep, name, ctrace)
     rep.cov["rule"] = ("call sequences (recv of every slice incl. empty/duplicate/overlapping/already-read, try_read of several sizes, try_next) "
                        "enumerated by TLC to the stated depth plus seeded random long streams; each executed on the real RecvBuf; every recorded "
                        "step validated by TLC against RecvBuf.tla (return value, nread, largest_offset, available, is_readable; bytes compared by the "
-                       "harness). distinct_nontrivial = distinct runs that handed at least one byte to the reader.")
+                       "harness); the same sequences are also driven through the crypto stream (recv_frame / poll_read: only the bytes read are visible there). distinct_nontrivial = distinct runs that handed at least one byte to the reader.")
     rep.cov["exhaustive"] = True
     rep.assumptions += ["fragments are slices of one underlying byte sequence (position-determined content)"]
 
